@@ -98,6 +98,22 @@ def case_ref(case):
     n += 1
     if not (np.array_equal(np.asarray(got[0], dtype=float), want[0]) and np.array_equal(np.asarray(got[1], dtype=float), want[1])):
         bad("integer-offsets", "xy_to_latlon on integer arrays differs from the float arrays: %r vs %r" % (np.asarray(got[0])[:2], np.asarray(want[0])[:2]))
+    # 2-D coordinate arrays that are NOT an xy-meshgrid: an ij-meshgrid and a batch of scattered points
+    gx, gy = np.meshgrid(np.arange(-1500.0, 1501.0, 1000.0), np.arange(-900.0, 901.0, 600.0), indexing="ij")
+    sc = np.array([[120.0, -340.0, 2210.0], [-4100.0, 15.0, 0.0]])
+    for name, ax, ay in (("ij-meshgrid", gx, gy), ("scattered 2-D batch", sc, sc[::-1, ::-1].copy()), ("xy-meshgrid", gx.T.copy(), gy.T.copy())):
+        la2, lo2 = xy_to_latlon(ax, ay, rlat, rlon)
+        n += 1
+        la2, lo2 = np.asarray(la2), np.asarray(lo2)
+        ok = la2.shape == ax.shape and lo2.shape == ax.shape
+        if ok:
+            for idx in np.ndindex(ax.shape):
+                l1, l2 = xy_to_latlon(float(ax[idx]), float(ay[idx]), rlat, rlon)
+                if float(l1) != float(la2[idx]) or float(l2) != float(lo2[idx]):
+                    ok = False
+                    break
+        if not ok:
+            bad("array-call-2d", "xy_to_latlon on a %s differs from the scalar calls point by point" % name)
     # towers through the configuration parser
     tw = [{"name": "t%d" % i, "lat": float(la[i]), "lon": float(lo[i]), "z_m": 5.0} for i in range(0, len(pts), 7)]
     cfg = parse_config_dict({"domain": {"nx": 4, "ny": 4, "xmax": 40.0, "ymax": 40.0, "nz": 2, "ref_lat": rlat, "ref_lon": rlon}, "towers": tw, "met": {"ustar": 0.3}})
@@ -114,7 +130,12 @@ HIST_OPS = [
     {"ref": [47.3, 11.5], "pt": [-4000.0, 2500.0]},
     {"ref": [0.0, 0.0], "pt": [10.0, 10.0]},
     {"ref": [60.0, -179.99], "arr": True},
+    # the SAME tower entries under different reference origins; the live configuration objects are returned and kept
+    {"ref": [50.0, 10.0], "fixed_towers": True},
+    {"ref": [49.99, 10.02], "fixed_towers": True},
+    {"ref": [50.0, 10.0], "fixed_towers": True, "extra": True},
 ]
+FIXED_TOWERS = [{"name": "a", "lat": 50.001, "lon": 10.002, "z_m": 5.0}, {"name": "b", "lat": 50.0, "lon": 10.0, "z_m": 7.0}]
 
 
 def hist_op(i):
@@ -123,6 +144,12 @@ def hist_op(i):
 
     op = HIST_OPS[i]
     rlat, rlon = op["ref"]
+    if op.get("fixed_towers"):
+        import copy
+
+        tw = copy.deepcopy(FIXED_TOWERS) + ([{"name": "c", "lat": 50.002, "lon": 9.999, "z_m": 3.0}] if op.get("extra") else [])
+        cfg = parse_config_dict({"domain": {"nx": 4, "ny": 4, "xmax": 40.0, "ymax": 40.0, "nz": 2, "ref_lat": rlat, "ref_lon": rlon}, "towers": tw, "met": {"ustar": 0.3}})
+        return cfg.towers  # live objects: a later parse must not move them
     if op.get("arr"):
         la, lo = xy_to_latlon(np.arange(-2000.0, 2001.0, 1000.0), np.arange(2000.0, -2001.0, -1000.0), rlat, rlon)
         return (np.asarray(la), np.asarray(lo))
